@@ -54,6 +54,15 @@ const (
 
 const vTSBase = uint32(1700000000)
 
+// vExpBits is the number of free low bits of every hop field's ExpTime (the others are zero). 8 = all
+// values. C28 sets it from the instance parameter "expbits": the queries about the earliest expiry
+// of a path are solver-hard with six or more full 8-bit ExpTime values (bound, named in the spec).
+var vExpBits = 8
+
+func vExpTime(name string) uint8 {
+	return verif.NondetU8(name) & uint8(1<<uint(vExpBits)-1)
+}
+
 type vIfRec struct {
 	ia   addr.IA
 	id   uint16
@@ -131,7 +140,7 @@ func vMkSeg(tag string, ents []vEntry) *seg.PathSegment {
 			MTU:   int(verif.NondetU16(p + ".mtu")),
 			HopEntry: seg.HopEntry{
 				HopField: seg.HopField{
-					ExpTime:     verif.NondetU8(p + ".exp"),
+					ExpTime:     vExpTime(p + ".exp"),
 					ConsIngress: in,
 					ConsEgress:  eg,
 					MAC:         mac,
@@ -156,7 +165,7 @@ func vMkSeg(tag string, ents []vEntry) *seg.PathSegment {
 				PeerInterface: verif.NondetU16(q + ".rem"),
 				PeerMTU:       int(verif.NondetU16(q + ".mtu")),
 				HopField: seg.HopField{
-					ExpTime:     verif.NondetU8(q + ".exp"),
+					ExpTime:     vExpTime(q + ".exp"),
 					ConsIngress: pin,
 					ConsEgress:  eg,
 					MAC:         pmac,
@@ -263,7 +272,7 @@ type vPart struct {
 	hops    []vHop
 	intfs   []snet.PathInterface
 	exps    []time.Time // absolute expiry of every hop field used
-	mtu     uint16    // minimum of the internal and link MTUs along the part
+	mtus    []uint16 // the internal and link MTUs along the part
 	links   int       // inter-AS links traversed (a peering link is counted on the down side)
 	cut     int       // index of the AS entry at which the segment is left / entered (0 = whole segment)
 }
@@ -275,16 +284,37 @@ type vRef struct {
 
 const vExpUnit = 24 * time.Hour / 256 // scion-header.rst: (1 + ExpTime) * 24*60*60/256 s
 
+// vHopExpiry is the absolute expiry of a hop field (scion-header.rst): Timestamp + (1 + ExpTime) * unit.
 func vHopExpiry(ts uint32, exp uint8) time.Time {
 	return time.Unix(int64(ts), 0).Add(time.Duration(uint64(exp)+1) * vExpUnit)
 }
 
-func vMinU16(a, b uint16) uint16 {
-	r := a
-	if b < a {
-		r = b
+// vExpiryLemmas states, and hands to the solver as a proved fact, that within one segment (common
+// timestamp) a hop field with a smaller ExpTime expires no later than one with a larger ExpTime.
+// Each instance is a small query of its own (two 8-bit ExpTime values, one timestamp); having the
+// facts in the path condition keeps the multiplication (1 + ExpTime) * 337.5 s out of the queries
+// about the earliest expiry of a whole path.
+func vExpiryLemmas(lists ...[]*seg.PathSegment) {
+	for _, list := range lists {
+		for _, s := range list {
+			var hfs []seg.HopField
+			for _, e := range s.ASEntries {
+				hfs = append(hfs, e.HopEntry.HopField)
+				for _, pe := range e.PeerEntries {
+					hfs = append(hfs, pe.HopField)
+				}
+			}
+			ts := vTS(s)
+			for i := range hfs {
+				for j := i + 1; j < len(hfs); j++ {
+					a, b := vHopExpiry(ts, hfs[i].ExpTime), vHopExpiry(ts, hfs[j].ExpTime)
+					fact := (hfs[i].ExpTime <= hfs[j].ExpTime) == !b.Before(a)
+					verif.Assert("lemma-expiry-monotone-in-exptime", fact)
+					verif.Assume(fact)
+				}
+			}
+		}
 	}
-	return r
 }
 
 func vTS(s *seg.PathSegment) uint32 { return uint32(s.Info.Timestamp.Unix()) }
@@ -308,7 +338,7 @@ func vBeta(s *seg.PathSegment, k int) uint16 {
 func vAgainst(s *seg.PathSegment, i, pk int) vPart {
 	n := len(s.ASEntries)
 	ts := vTS(s)
-	p := vPart{ts: ts, consDir: false, peer: pk >= 0, mtu: 0xffff, cut: i}
+	p := vPart{ts: ts, consDir: false, peer: pk >= 0, cut: i}
 	// SegID: the first hop processed is entry n-1, which is verified with beta_{n-1}; if that hop
 	// is itself the peering hop, with beta_n (scion-header.rst, "Peering Links").
 	k := n - 1
@@ -333,11 +363,11 @@ func vAgainst(s *seg.PathSegment, i, pk int) vPart {
 			p.intfs = append(p.intfs, snet.PathInterface{IA: e.Local, ID: iface.ID(hf.ConsIngress)})
 			p.links++
 		}
-		p.mtu = vMinU16(p.mtu, uint16(e.MTU))
+		p.mtus = append(p.mtus, uint16(e.MTU))
 		if usePeer {
-			p.mtu = vMinU16(p.mtu, uint16(e.PeerEntries[pk].PeerMTU))
+			p.mtus = append(p.mtus, uint16(e.PeerEntries[pk].PeerMTU))
 		} else if leaves && idx != 0 {
-			p.mtu = vMinU16(p.mtu, uint16(e.HopEntry.IngressMTU))
+			p.mtus = append(p.mtus, uint16(e.HopEntry.IngressMTU))
 		}
 		p.exps = append(p.exps, vHopExpiry(ts, hf.ExpTime))
 	}
@@ -352,7 +382,7 @@ func vAgainst(s *seg.PathSegment, i, pk int) vPart {
 func vAlong(s *seg.PathSegment, j, qk int) vPart {
 	m := len(s.ASEntries)
 	ts := vTS(s)
-	p := vPart{ts: ts, consDir: true, peer: qk >= 0, mtu: 0xffff, cut: j}
+	p := vPart{ts: ts, consDir: true, peer: qk >= 0, cut: j}
 	k := j
 	if qk >= 0 {
 		k = j + 1
@@ -374,11 +404,11 @@ func vAlong(s *seg.PathSegment, j, qk int) vPart {
 		if idx != m-1 {
 			p.intfs = append(p.intfs, snet.PathInterface{IA: e.Local, ID: iface.ID(hf.ConsEgress)})
 		}
-		p.mtu = vMinU16(p.mtu, uint16(e.MTU))
+		p.mtus = append(p.mtus, uint16(e.MTU))
 		if usePeer {
-			p.mtu = vMinU16(p.mtu, uint16(e.PeerEntries[qk].PeerMTU))
+			p.mtus = append(p.mtus, uint16(e.PeerEntries[qk].PeerMTU))
 		} else if enters && idx != 0 {
-			p.mtu = vMinU16(p.mtu, uint16(e.HopEntry.IngressMTU))
+			p.mtus = append(p.mtus, uint16(e.HopEntry.IngressMTU))
 		}
 		p.exps = append(p.exps, vHopExpiry(ts, hf.ExpTime))
 	}
@@ -529,12 +559,14 @@ func (r *vRef) expiries() []time.Time {
 	return out
 }
 
-func (r *vRef) mtu() uint16 {
-	x := r.parts[0].mtu
-	for _, p := range r.parts[1:] {
-		x = vMinU16(x, p.mtu)
+// mtus lists the MTUs the property names: the internal MTU of every AS on the traversed part and the
+// MTU of every inter-AS link traversed.
+func (r *vRef) mtus() []uint16 {
+	var out []uint16
+	for _, p := range r.parts {
+		out = append(out, p.mtus...)
 	}
-	return x
+	return out
 }
 
 // raw renders the combination as a SCION path (scion-header.rst): PathMeta with CurrINF = CurrHF = 0,
